@@ -192,6 +192,11 @@ def run(analysis: Analysis, tier: str) -> RuleResult:
         # every clause of the atomic replace (C12-R1..R3): a failing attempt keeps the state marked unsaved
         # and leaves a loadable previous copy, the next attempt writes the then-current state
         c12.analyse_save_rows(res, summ)
+    # "a failed save leaves the previous file loadable": the loader looks at what such a save leaves behind
+    # (main missing, old file in .bak) - the load-side clauses of C12-R4
+    persist.check_dispatch_shape(analysis)
+    for summ in common.pmap(analysis, c12.load_worker, [(e, (analysis.versions[-1], "serial", "sync")) for e in persist.EXTS]):
+        c12.analyse_load_rows_c12(res, summ)
     for o in res.obs[before:]:
         o.rule = "C15-R3"
     res.reindex()
